@@ -2,12 +2,12 @@
    bool, option, list, prod, unit, sumbool map to the OCaml types; nat, N, positive stay
    inductive).  The output files model.ml/model.mli are written to the working directory. *)
 From Coq Require Extraction ExtrOcamlBasic.
-From FR Require Import Base State Utf8 Ast Analyze Parse Sem Vm Compile Escape Api Expand.
+From FR Require Import Base State Utf8 Ast Analyze Parse Sem Vm Compile Scope Escape Api Expand.
 Extraction Language OCaml.
 Extraction "model.ml"
   st_new exec rexec r_new abs
   usize_max facts acheck regex_new compile wrap ngroups delegate_pattern to_str push_usize
-  vm_run search search_list semk sem init_caps Nat.add
+  vm_run search search_list semk sem init_caps Nat.add in_scope
   regex_search regex_ngroups mnext cnext collect ccollect split_collect splitn_collect try_replacen
   m_init sp_init cap_get cap_len
   steps expansion check x_escape expander_default expander_python
